@@ -296,7 +296,7 @@ Definition device_call (st : tracker) (c : call) : tracker :=
 (* ------------------------------------------------------------------ programs *)
 Inductive op :=
 | OEnter | OExit | OReset
-| OUpdate (kw : kwargs)        (* user code calling tracker.update(**kw) directly *)
+| OUpdate (kw : kwargs)        (* user code calling tracker.update with keyword arguments kw directly *)
 | ORecord
 | OCall (c : call).
 
